@@ -29,7 +29,7 @@ Fixpoint bytes_ltb (a b : bytes) : bool :=
 Fixpoint insert_field (kv : bytes * bytes) (l : fields) : fields :=
   match l with
   | [] => [kv]
-  | x :: r => if bytes_ltb (fst kv) (fst x) then kv :: l else x :: insert_field kv r
+  | x :: r => if bytes_ltb (fst x) (fst kv) then x :: insert_field kv r else kv :: l
   end.
 Definition sort_fields (l : fields) : fields := fold_right insert_field [] l.
 (* headerNewlineToSpace + textproto.TrimString *)
@@ -155,7 +155,7 @@ Fixpoint set_first (k v : bytes) (seen : bool) (h : fields) : fields :=
   end.
 Definition merge_cookies (h : fields) : fields :=
   match get_all s_cookie h with
-  | _ :: _ :: _ as vs => set_first s_cookie (join_cookies vs) false h
+  | (_ :: _ :: _) as vs => set_first s_cookie (join_cookies vs) false h
   | _ => h
   end.
 (* url.ParseRequestURI on :path, modelled classes: 1 accepted, 0 not modelled, 3 rejected *)
@@ -275,16 +275,21 @@ Definition front_spdy (ps : fields) : Z + wreq :=
 Fixpoint split_crlf (s : bytes) : option (bytes * bytes) :=
   match s with
   | [] => None
-  | 13 :: 10 :: r => Some ([], r)
   | x :: r =>
-    if (x =? 13) || (x =? 10) then None
+    if x =? 13 then
+      match r with
+      | y :: r' => if y =? 10 then Some ([], r') else None
+      | [] => None
+      end
+    else if x =? 10 then None
     else match split_crlf r with Some (l, t) => Some (x :: l, t) | None => None end
   end.
 Definition target_byte_ok (b : Z) : bool := (33 <=? b) && negb (b =? 127).
+Definition target_ok (t : bytes) : bool := match t with [] => false | _ => forallb target_byte_ok t end.
 Definition strict_reqline (l : bytes) : option (bytes * bytes) :=
   match split_byte 32 l with
   | [m; t; v] =>
-    if is_token m && (match t with [] => false | _ => forallb target_byte_ok t end) && bytes_eqb v s_http11
+    if is_token m && target_ok t && bytes_eqb v s_http11
     then Some (m, t) else None
   | _ => None
   end.
@@ -385,7 +390,7 @@ Definition sreq_eqb (a b : sreq) : bool :=
 Definition no_crlf (l : bytes) : bool := forallb (fun b => negb ((b =? 13) || (b =? 10))) l.
 Definition unsafe_component (r : wreq) : Z :=
   if negb (is_token (w_method r)) then 1
-  else if negb (match w_ruri r with [] => false | t => forallb target_byte_ok t end) then 2
+  else if negb (target_ok (w_ruri r)) then 2
   else if negb (no_crlf (w_host r)) then 3
   else if negb (forallb (fun kv => is_token (fst kv)) (forwarded_fields (w_fields r))) then 4
   else 0.
